@@ -11,13 +11,19 @@ static CTX: OnceLock<(Ctx, String, bool)> = OnceLock::new();
 
 fuzz_target!(|data: &[u8]| {
     let (ctx, focus, drain) = CTX.get_or_init(|| {
+        // libfuzzer-sys aborts on every panic; the harness needs to catch library panics itself (they are C03's
+        // business and end a case of another property without a verdict), so its own recording hook replaces that one
+        rustun_verif::report::install_panic_hook();
         let f = std::env::var("VERIF_FOCUS").unwrap_or_else(|_| "C05".to_string());
         let drain = !matches!(f.as_str(), "C10" | "C12" | "C13");
         (Ctx::new(&f, Tier::Thorough), f, drain)
     });
     if let Err(e) = fuzzgen::history_case(data, &[focus.as_str()], ctx, *drain) {
-        if !e.starts_with("HARNESS-") {
-            panic!("VIOLATION {}", e);
+        if e.starts_with("HARNESS-") {
+            eprintln!("HARNESS-FAILURE (not a violation): {}", e);
+        } else {
+            eprintln!("VIOLATION {}", e);
         }
+        std::process::abort();
     }
 });
